@@ -5,7 +5,7 @@ import ast
 
 from ..core import AnalysisError, Report, call_name, dotted, unparse
 from ..ctx import Ctx
-from .util import enclosing
+from .util import cguards, enclosing
 
 EXPLANATION = (
     "Only the second sentence of C13 is decided ('records that cannot form "
@@ -234,6 +234,7 @@ def check(rep: Report, ctx: Ctx) -> None:
            node=loops[0] if loops else gj.node,
            detail="under `if json_per_line`, unconditionally per line")
     r137(rep, ctx)
+    r138(rep, ctx)
 
 
 def r137(rep: Report, ctx: Ctx) -> None:
@@ -277,3 +278,85 @@ def r137(rep: Report, ctx: Ctx) -> None:
                        if bad else
                        f"{len(ynodes)} yield site(s), {len(rewinds)} "
                        "seek/open call(s), none between two yields"))
+
+
+def r138(rep: Report, ctx: Ctx) -> None:
+    """Priority fall-backs and '_' joins: every alternative of a field spec
+    gets a jq variable of its own, bound from that alternative's own paths.
+    (The text of the generated program is pinned by the suite; what is not
+    pinned is that *every* alternative contributes, whatever else the spec
+    contains.)"""
+    rep.rule("R13.8", "every alternative of a field spec binds a jq variable "
+             "of its own from its own key path / key value / value path", 3)
+    fi = ctx.func("get_jq_for_field_spec")
+    cfg, defs = ctx.cfg(fi), ctx.defs(fi)
+    inner = [l for l in ast.walk(fi.node) if isinstance(l, ast.For)
+             and enclosing(fi.node, l, (ast.For,))
+             and isinstance(l.target, ast.Tuple)]
+    if len(inner) != 1:
+        raise AnalysisError(f"{fi.qualname}: alternative loop not found")
+    loop = inner[0]
+    outer = enclosing(fi.node, loop, (ast.For,))[0]
+    idx = {t.elts[0].id for t in (outer.target, loop.target)
+           if isinstance(t, ast.Tuple) and isinstance(t.elts[0], ast.Name)}
+    tvars = [e.id for e in loop.target.elts[1:] if isinstance(e, ast.Name)]
+    apps = [c for c in ast.walk(loop) if isinstance(c, ast.Call)
+            and call_name(c) == "append" and c.args]
+    rep.ob("R13.8", "one variable is registered per alternative",
+           len(apps) == 1 and not cguards(ctx, fi, apps[0]), fi=fi,
+           node=apps[0] if apps else loop,
+           detail=f"{len(apps)} append(s) in the alternative loop, "
+                  "unconditional")
+    if len(apps) != 1:
+        return
+    a = apps[0].args[0]
+    var = a.id if isinstance(a, ast.Name) else None
+    vb = [b for b in defs.of(var or "") if any(x is b.stmt
+                                              for x in ast.walk(loop))]
+    own = bool(vb) and all(
+        isinstance(b.value, ast.JoinedStr) and idx <= {
+            n.id for n in ast.walk(b.value) if isinstance(n, ast.Name)}
+        for b in vb)
+    rep.ob("R13.8", "the registered variable is this alternative's own",
+           own, fi=fi, node=apps[0],
+           detail=f"append({unparse(a)}) with '{var}' = "
+                  f"{[unparse(b.value)[:40] for b in vb]} (must be built "
+                  f"from the two position indices {sorted(idx)})")
+    # every iteration that registers the variable also binds it in the query
+    binds = []
+    for st in ast.walk(loop):
+        if isinstance(st, ast.AugAssign) and cfg.has(st) and var and any(
+                isinstance(n, ast.Name) and n.id == var
+                for n in ast.walk(st.value)):
+            binds.append(st)
+    an = cfg.container(apps[0])
+    ok = bool(binds) and an is not None and cfg.every_path_passes(
+        an, cfg.node(loop), [cfg.node(b) for b in binds])
+    rep.ob("R13.8", "... and binds it in the generated query on every path",
+           ok, fi=fi, node=apps[0],
+           detail=(f"{len(binds)} `jq_query += ... as {{{var}}}` "
+                   "statement(s); " + ("every path from the registration to "
+                                       "the next alternative passes one"
+                                       if ok else
+                                       "some path reaches the next "
+                                       "alternative without binding the "
+                                       "variable (the alternative is "
+                                       "answered from another one's "
+                                       "value)")))
+    for b in binds:
+        used = {n.id for n in ast.walk(b.value) if isinstance(n, ast.Name)}
+        gs = cguards(ctx, fi, b)
+        keyed = any(g[0] == "cmp" and g[2] == "IsNot" and g[3] == "None"
+                    for g in gs)
+        need = set(tvars) if keyed else set(tvars[:1])
+        # split_on_array etc. derive from key_path: follow one definition
+        derived = set()
+        for u in list(used):
+            for bb in defs.of(u):
+                if bb.value is not None:
+                    derived |= {n.id for n in ast.walk(bb.value)
+                                if isinstance(n, ast.Name)}
+        rep.ob("R13.8", "the binding reads the alternative's own paths",
+               need <= (used | derived), fi=fi, node=b,
+               detail=f"needs {sorted(need)}, reads "
+                      f"{sorted((used | derived) & set(tvars))}")
